@@ -154,6 +154,14 @@ def run(R):
             # by feasible path through next() (or the closure it maps with): the variant built at the end of the path against the
             # outcome of the Ascii::is_valid_key(name) test passed on it — however the test result is carried there
             fam_ = [nb] + [c for c in tonic.children(nb) if c.kind == 'closure']
+            # a named private function handed to Option::map in place of the closure (`.map(KeyRef::from_header_name)`)
+            for bb_, t_ in nb.calls():
+                for a_ in t_['args']:
+                    fp_ = (a_.get('k') or {}).get('fn') if isinstance(a_, dict) else None
+                    if fp_ and fp_ in tonic.helper_defs and tonic.helper_defs[fp_] not in fam_:
+                        fam_.append(tonic.helper_defs[fp_])
+                    elif fp_ and fp_.startswith('tonic::metadata::map::') and fp_ in tonic.by_path and tonic.by_path[fp_][0] not in fam_ and tonic.by_path[fp_][0].kind == 'fn':
+                        fam_.append(tonic.by_path[fp_][0])
             R.saw(*fam_)
             variants = defaultdict(set)
             tested = []
@@ -162,14 +170,17 @@ def run(R):
                 vk = [(bb_, t_) for bb_, t_ in c.calls(name='is_valid_key')]
                 ntest += len(vk)
                 for bb_, t_ in vk:
-                    R.check('Ascii' in (t_.get('self_ty') or t_.get('fn') or ''), 'C08.R3', 'iter:%s:test' % itname, site(c, bb_), 'categorises with %s' % (t_.get('self_ty') or t_.get('fn')))
+                    who_ = (t_.get('self_ty') or t_.get('fn') or '')
+                    # Binary::is_valid_key is the negation of Ascii::is_valid_key (checked below): the outcome is read with the sign flipped
+                    R.check('Ascii' in who_ or 'Binary' in who_, 'C08.R3', 'iter:%s:test' % itname, site(c, bb_), 'categorises with %s' % who_)
                     tested.append(c.origin(t_['args'][0]))
                 for cons, path in mirlib.path_rows(c, stop=set(writers_of(c, 0))):
                     val = mirlib.simplify(c.ret_on_path(path))
                     built = find_terms(val, lambda x: isinstance(x, tuple) and x and x[0] == 'agg' and isinstance(x[1], dict) and x[1].get('variant') in ('Ascii', 'Binary') and 'metadata::map::' in (x[1].get('adt') or ''))
                     if not built:
                         continue
-                    truth = [c.edge_truth(bb_, vals) for bb_, tm, vals in c.path_tests(path) if is_call(strip_refs(tm), name='is_valid_key')]
+                    truth = [(c.edge_truth(bb_, vals) if 'Binary' not in (strip_refs(tm)[1] + str((strip_refs(tm)[4] or {}).get('self_ty') if len(strip_refs(tm)) > 4 and isinstance(strip_refs(tm)[4], dict) else '')) else (not c.edge_truth(bb_, vals)))
+                             for bb_, tm, vals in c.path_tests(path) if is_call(strip_refs(tm), name='is_valid_key')]
                     for x in built:
                         variants[x[1]['variant']].add(truth[0] if len(truth) == 1 else 'untested' if not truth else 'ambiguous')
             R.check(ntest == 1, 'C08.R3', 'iter:%s:test' % itname, site(nb), 'is_valid_key tests in %s::next: %d' % (itname, ntest))
